@@ -26,10 +26,10 @@
             'rewrites': [[r'eval_expr_impl\((\w+), shell, depth\)', r'__o.ev(\1)', 4],
                          [r'pin_subscript\(shell, &?(\w+), depth\)', r'__o.pin(&\1)', 0],
                          [r'deref_lvalue\(shell, &?(\w+), depth\)', r'__o.deref(&\1)', 1],
-                         [r'assign\(shell, &?(\w+), (\w+), depth\)', r'__o.assign(&\1, \2)', 2],
+                         [r'assign\(shell, &?(\w+), (\w+), depth\)', r'__o.assign(&\1, \2)', 1],
                          [r'apply_unary_op\(shell, \*op, (\w+), depth\)', r'__o.unop(*op, \1)', 1],
                          [r'apply_unary_assignment_op\(shell, &?(\w+), \*op, depth\)', r'__o.incdec(&\1, *op)', 1],
-                         [r'apply_binary_op\(\s*shell,\s*\*op,\s*([^,]+),\s*([^,]+),\s*depth,?\s*\)', r'__o.binop(*op, \1, \2)', 2]]},
+                         [r'apply_binary_op\(\s*shell,\s*\*op,\s*([^,]+),\s*([^,]+),\s*depth,?\s*\)', r'__o.binop(*op, \1, \2)', 1]]},
 }
 @*/
 use super::*;
